@@ -14,6 +14,12 @@ CLAIMS = {
         "Decides on every path of every public parser function: no success return rests on an end-of-input look-ahead answer unless the parked I/O error was consulted afterwards; plus who-may-construct SyntaxError, the eof tokens and no-dropped-error rules. It decides this clause, not item equality with the fault-free run.",
         "DESIGN.md §4 C04",
     ),
+    "C09": (
+        "other",
+        "CFG/guard-dominance rules on the reader's refill code plus interprocedural typestate analysis (last look-ahead answer) over MIR",
+        "Decides: exactly one guarded Read::read call site whose only cycle is the Interrupted retry, refill reachable only when the buffer falls short, no bulk request in tokenizers; and on every path of every streaming API function the last look-ahead answer before a success return is the line terminator or end of input (no byte beyond the consumed text was asked for). The number of reads per item for a concrete source is not decided.",
+        "DESIGN.md §4 C09",
+    ),
     "C15": (
         "proof",
         "exhaustive abstract interpretation of MIR over the finite variant domain, compared with a specification table",
